@@ -66,11 +66,11 @@ class StorageObserver(l1.Observer):
                     raise l1.Violation("roundtrip:frame-reference", f"path {pn} frame {i}: {a.config} vs {b.config}")
                 if bool(a.vel_rev) != bool(b.vel_rev):
                     raise l1.Violation("roundtrip:velocity-direction", f"path {pn} frame {i}: {a.vel_rev} vs {b.vel_rev}")
-                if abs(float(a.order[0]) - float(b.order[0])) > 5e-7:
+                if not abs(float(a.order[0]) - float(b.order[0])) <= 5e-7:
                     raise l1.Violation("roundtrip:order", f"path {pn} frame {i}: {a.order[0]} vs {b.order[0]}")
-                if b.vpot is not None and (a.vpot is None or abs(float(a.vpot) - float(b.vpot)) > 5e-7):
+                if b.vpot is not None and float(b.vpot) == float(b.vpot) and (a.vpot is None or not abs(float(a.vpot) - float(b.vpot)) <= 5e-7):
                     raise l1.Violation("roundtrip:energy", f"path {pn} frame {i}: vpot {a.vpot} vs {b.vpot}")
-                if b.ekin is not None and (a.ekin is None or abs(float(a.ekin) - float(b.ekin)) > 5e-7):
+                if b.ekin is not None and float(b.ekin) == float(b.ekin) and (a.ekin is None or not abs(float(a.ekin) - float(b.ekin)) <= 5e-7):
                     raise l1.Violation("roundtrip:energy", f"path {pn} frame {i}: ekin {a.ekin} vs {b.ekin}")
                 want_dir = os.path.realpath(os.path.join(d, "accepted"))
                 if os.path.realpath(os.path.dirname(b.config[0])) != want_dir:
